@@ -8,6 +8,7 @@ import Acv.Model.Message
 import Acv.Model.ReportIds
 import Acv.Model.LexIndex
 import Acv.Gen.Tables
+import Acv.Model.Ld
 import Acv.Gen.PathGrammar
 import Acv.Gen.Pipeline
 /-! protocol operations: one JSON case in, one JSON line out -/
@@ -215,9 +216,51 @@ def opC08 (j : Json) : R Json := do
     ("forbidden", Json.bool (["http.send", "net.lookup_ip_addr", "opa.runtime", "rego.parse_module", "walk"].contains b)),
     ("known", Json.bool (Gen.engineBuiltins.contains b))]
 
+/-- JSON text of a data document as the normalisation model reads it (integers only) -/
+partial def toJs (j : Json) : Ld.Js :=
+  match j with
+  | .null => .null
+  | .bool b => .bool b
+  | .num n => .num n.mantissa        -- generated documents contain integers only (exponent 0)
+  | .str s => .str s
+  | .arr xs => .arr (xs.toList.map toJs)
+  | .obj kvs => .obj (kvs.toList.map (fun (p : String × Json) => (p.1, toJs p.2)))
+
+def canonVal : Val → String
+  | .str s => "s:" ++ s
+  | .num i => "n:" ++ toString i
+  | .bool b => "b:" ++ (if b then "true" else "false")
+  | .ref id => "r:" ++ id
+
+/-- canonical rendering of an index: nodes by id, types sorted, values sorted -/
+def canonIndexJson (ix : Ld.Index) : Json :=
+  let nodes := (ix.nodes.toArray.qsort (fun a b => a.id < b.id)).toList
+  Json.arr (nodes.map (fun n => Json.mkObj [
+    ("id", Json.str n.id),
+    ("types", jstrs (sortStrs n.types)),
+    ("props", Json.mkObj (n.props.map (fun p => (p.1, jstrs (sortStrs (p.2.map canonVal))))))])).toArray
+
+/-- c05: normalisation model on every serialisation inside the fragment + the index the abstract graph denotes -/
+def opC05 (j : Json) : R Json := do
+  let g ← decGraph (← fld j "graph")
+  let docs ← fldArr j "docs"
+  let outs ← docs.mapM fun d => do
+    let inFragment := fldBoolD d "fragment" true
+    if !inFragment then return Json.mkObj [("skipped", Json.bool true)]
+    let text ← fldStr d "text"
+    match Json.parse text with
+    | .error e => return Json.mkObj [("outcome", Json.str s!"parse: {e}")]
+    | .ok dj =>
+      match Ld.norm (toJs dj) with
+      | none => return Json.mkObj [("outcome", Json.str "outside-fragment")]
+      | some ix => return Json.mkObj [("outcome", Json.str "ok"), ("index", canonIndexJson ix),
+          ("equivCanon", Json.bool (ix.equiv (Ld.canonIndex g)))]
+  return Json.mkObj [("canon", canonIndexJson (Ld.canonIndex g)), ("docs", Json.arr outs.toArray)]
+
 def runOp (j : Json) : R Json := do
   match ← fldStr j "op" with
   | "c01" => opC01 j
+  | "c15" => opC01 j
   | "c02" => opC02 j
   | "pipe" => opPipe j
   | "c03" => opC03 j
@@ -227,6 +270,7 @@ def runOp (j : Json) : R Json := do
   | "c12" => opC12 j
   | "c14" => opC14 j
   | "c08" => opC08 j
+  | "c05" => opC05 j
   | op => throw s!"unknown op {op}"
 
 def handleLine (line : String) : String :=
